@@ -941,8 +941,11 @@ def _minimize(generation_result, algorithm=None):
                 # Mark the test suite as changed
                 generation_result.changed = True
                 # Verify that coverage is restored
-                restored_coverage = generation_result.get_coverage_for(fitness_functions)
-                _LOGGER.info("Coverage after restoration: %.4f", restored_coverage)
+                restored_coverages = [
+                    generation_result.get_coverage_for(fitness_function)
+                    for fitness_function in fitness_functions
+                ]
+                _LOGGER.info("Coverage after restoration: %s", restored_coverages)
 
         else:
             unused_primitives_removal = pp.TestCasePostProcessor([unused_vars_minimizer])
